@@ -18,7 +18,7 @@ import (
 
 type Case struct {
 	Grammar string `json:"grammar"` // expr | leafref
-	Src     string `json:"src"`
+	Src     fw.BStr `json:"src"`
 	MapFn   bool   `json:"mapfn"`
 	Near    bool   `json:"near,omitempty"` // within one token edit of a valid sentence
 }
@@ -35,7 +35,11 @@ func implMapFn(p string) (string, error) {
 var colliding = []string{"div", "and", "or", "mod", "text", "node", "comment", "processing-instruction", "child", "self", "parent", "ancestor",
 	"current", "deref", "count", "true", "not", "concat", "nosuch", "xml"}
 
-func checkCase(c Case) fw.Outcome {
+func checkCase(cc Case) fw.Outcome {
+	c := struct {
+		Grammar, Src string
+		MapFn, Near  bool
+	}{cc.Grammar, string(cc.Src), cc.MapFn, cc.Near}
 	out := fw.Outcome{Labels: []string{"grammar:" + c.Grammar}, Key: c.Grammar + "|" + c.Src + fmt.Sprint(c.MapFn)}
 	var want xp.Verdict
 	var kp func(string) bool
@@ -213,20 +217,20 @@ func genCase(t *rapid.T) Case {
 		for i := 0; i < n; i++ {
 			toks = append(toks, exprAlphabet[pick(len(exprAlphabet), "tok")])
 		}
-		c.Src = strings.Join(toks, " ")
+		c.Src = fw.BStr(strings.Join(toks, " "))
 		return c
 	default:
 		// names at XML name-character boundaries
 		r := boundaryRunes[pick(len(boundaryRunes), "rune")]
 		switch pick(4, "place") {
 		case 0:
-			c.Src = string(r) + "a"
+			c.Src = fw.BStr(string(r) + "a")
 		case 1:
-			c.Src = "a" + string(r)
+			c.Src = fw.BStr("a" + string(r))
 		case 2:
-			c.Src = "a/" + string(r) + " = 1"
+			c.Src = fw.BStr("a/" + string(r) + " = 1")
 		default:
-			c.Src = "p:" + string(r) + "x"
+			c.Src = fw.BStr("p:" + string(r) + "x")
 		}
 		return c
 	}
@@ -257,15 +261,15 @@ func genCase(t *rapid.T) Case {
 	}
 	switch pick(3, "join") {
 	case 0:
-		c.Src = strings.Join(toks, " ")
+		c.Src = fw.BStr(strings.Join(toks, " "))
 	case 1:
-		c.Src = joinTight(toks)
+		c.Src = fw.BStr(joinTight(toks))
 	default:
-		c.Src = " " + strings.Join(toks, " \t\n") + "\r"
+		c.Src = fw.BStr(" " + strings.Join(toks, " \t\n") + "\r")
 	}
 	if pick(12, "badutf") == 0 && len(c.Src) > 0 {
 		i := pick(len(c.Src)+1, "utfpos")
-		c.Src = c.Src[:i] + []string{"\xff", "\xc3", "\xe2\x82", "\x80"}[pick(4, "utfbyte")] + c.Src[i:]
+		c.Src = c.Src[:i] + fw.BStr([]string{"\xff", "\xc3", "\xe2\x82", "\x80"}[pick(4, "utfbyte")]) + c.Src[i:]
 		c.Near = false
 	}
 	return c
@@ -296,7 +300,7 @@ func TestCorpus(t *testing.T) {
 	for _, s := range lexical {
 		for _, g := range []string{"expr", "leafref"} {
 			for _, mf := range []bool{false, true} {
-				fw.Eval(syntax, "/corpus", Case{Grammar: g, Src: s, MapFn: mf})
+				fw.Eval(syntax, "/corpus", Case{Grammar: g, Src: fw.BStr(s), MapFn: mf})
 			}
 		}
 	}
@@ -317,8 +321,8 @@ func enumerate(alphabet []string, maxLen int, grammar string, shards int) int64 
 					for _, k := range idx[:l] {
 						toks = append(toks, alphabet[k])
 					}
-					fw.Eval(syntax, "/tokens-"+grammar, Case{Grammar: grammar, Src: strings.Join(toks, " "), MapFn: true})
-					fw.Eval(syntax, "/tokens-"+grammar, Case{Grammar: grammar, Src: joinTight(toks), MapFn: true})
+					fw.Eval(syntax, "/tokens-"+grammar, Case{Grammar: grammar, Src: fw.BStr(strings.Join(toks, " ")), MapFn: true})
+					fw.Eval(syntax, "/tokens-"+grammar, Case{Grammar: grammar, Src: fw.BStr(joinTight(toks)), MapFn: true})
 					n += 2
 				}
 			}
@@ -360,4 +364,23 @@ func pow(a, b int) int64 {
 		r *= int64(a)
 	}
 	return r
+}
+
+// FuzzSyntax: coverage-guided search with the differential verdict inside the target.
+func FuzzSyntax(f *testing.F) {
+	for i, s := range lexical {
+		if len(s) < 60 {
+			f.Add(byte(i%2), s, i%3 == 0)
+		}
+	}
+	f.Fuzz(func(t *testing.T, g byte, src string, mf bool) {
+		if len(src) > 120 {
+			return
+		}
+		c := Case{Grammar: []string{"expr", "leafref"}[int(g)%2], Src: fw.BStr(src), MapFn: mf}
+		if out := checkCase(c); out.Violation != "" {
+			fw.FuzzReport(syntax, c, out)
+			t.Fatal(out.Violation)
+		}
+	})
 }
